@@ -65,12 +65,15 @@ def main():
         outcome = "VERUS-OBLIGATION-FAILS" if fails else ("undecided: " + ",".join(undec) if undec else "no-verus-obligation-fails")
         rows.append((sid, target, outcome + (" (target property registered)" if fails and target in props_of_units else (" (unit not registered for the target property)" if fails else "")), "; ".join(sorted(set(fails))[:4])))
         print(rows[-1]); sys.stdout.flush()
+    n = len(rows); nf = sum(1 for r in rows if r[2].startswith("VERUS"))
+    print("seeds: %d, failed Verus obligation: %d, undecided: %d, none: %d" % (n, nf, sum(1 for r in rows if r[2].startswith("undecided")), sum(1 for r in rows if r[2].startswith("no-verus"))))
+    if only:
+        return  # a partial run does not replace the full table
     with open(os.path.join(VERIF, "seeded", "UNIT_MATRIX.md"), "w") as f:
         f.write("# Seeded changes vs. Verus units only (tools/run_seeded_units.py; no bounded families, no probes)\n\n| seeded change | breaks | outcome | failed obligations (first 4) |\n|---|---|---|---|\n")
         for r in rows:
             f.write("| %s | %s | %s | %s |\n" % r)
-    n = len(rows); nf = sum(1 for r in rows if r[2].startswith("VERUS"))
-    print("seeds: %d, failed Verus obligation: %d, undecided: %d, none: %d" % (n, nf, sum(1 for r in rows if r[2].startswith("undecided")), sum(1 for r in rows if r[2].startswith("no-verus"))))
+
 
 if __name__ == "__main__":
     main()
